@@ -368,6 +368,16 @@ func TestReplay(t *testing.T) {
 	if p == "" {
 		t.Skip()
 	}
+	var ec struct {
+		Em *ECase `json:"emscripten"`
+	}
+	if _, err := evid.LoadReplay(p, &ec); err == nil && ec.Em != nil {
+		if msg, _ := RunEmCase(ec.Em); msg != "" {
+			evid.Violation("replay", &ec, "%s", msg)
+			t.Fatal(msg)
+		}
+		return
+	}
 	var wc struct {
 		Wasi *WCase `json:"wasi"`
 	}
